@@ -31,6 +31,9 @@ def gen(rng: np.random.Generator, n: int, far=False):
     q = rng.choice([-1.0, 1.0], n)
     kappa = q * np.exp(rng.uniform(math.log(0.05), math.log(20), n))
     dr = rng.choice([0.0, 1.0, 1.0, 1.0, -1.0, -1.0], n) * np.exp(rng.uniform(math.log(1e-3), math.log(5.0), n))
+    # far-side reference points: |dr| > R with dr on the side opposite to the circle centre (dr + rho and rho of opposite sign)
+    far_side = rng.random(n) < 0.08
+    dr = np.where(far_side, np.sign(kappa) * (ALPHA / np.abs(kappa)) * rng.uniform(1.05, 3.0, n), dr)
     phi0 = rng.uniform(0, TWO_PI, n)
     k = rng.integers(0, 12, n)
     phi0 = np.where(k == 0, 0.0, phi0)
